@@ -96,7 +96,10 @@ impl Sq {
         let mut rng = StdRng::seed_from_u64(seed ^ ((w as u64) << 32));
         let pal = palette();
         let n = k * k;
-        let ods = ods_with(k, &mut rng, |t| pal[t * pal.len() / n]);
+        // namespaces grow with r + c: sorted along rows and columns, and every line of width >= 2 holds at
+        // least two different namespaces
+        let _ = n;
+        let ods = ods_with(k, &mut rng, |t| pal[((t / k + t % k) * pal.len() / (2 * k)).min(pal.len() - 1)]);
         let eds = ExtendedDataSquare::from_ods(ods, APP).unwrap_or_else(|e| tool_error(&format!("from_ods: {e}")));
         if junk.is_empty() {
             return Sq::from_eds_opt(eds, strict);
@@ -110,6 +113,36 @@ impl Sq {
         }
         let eds = ExtendedDataSquare::new(shares, "Leopard".to_string(), APP)
             .unwrap_or_else(|e| tool_error(&format!("corrupted square rejected by ExtendedDataSquare::new: {e}")));
+        Sq::from_eds(eds)
+    }
+
+    /// A block whose producer computed the parity half of the first-quadrant line (axis, line) from a
+    /// permutation of that line's data shares (first and last exchanged; they have different namespaces):
+    /// the committed line is not a codeword, and what is reconstructed from its parity half has valid
+    /// namespaces that are out of order.
+    pub fn permuted_line(w: usize, seed: u64, axis: AxisType, line: usize) -> Sq {
+        let honest = Sq::generic(w, seed, &[]);
+        let k = w / 2;
+        if line >= k || k < 2 {
+            tool_error("permuted_line needs a first-quadrant line of an ODS of width >= 2");
+        }
+        let mut shares: Vec<Vec<u8>> = honest.eds.data_square().iter().map(|s| s.to_vec()).collect();
+        let at = |p: usize| match axis {
+            AxisType::Row => line * w + p,
+            AxisType::Col => p * w + line,
+        };
+        let mut enc: Vec<Vec<u8>> = (0..k).map(|p| shares[at(p)].clone()).collect();
+        if enc[0][..NS_SIZE] == enc[k - 1][..NS_SIZE] {
+            tool_error("permuted_line: the exchanged shares have the same namespace");
+        }
+        enc.swap(0, k - 1);
+        enc.resize(w, vec![0; SHARE_SIZE]);
+        leopard_codec::encode(&mut enc, k).unwrap_or_else(|e| tool_error(&format!("leopard: {e}")));
+        for p in k..w {
+            shares[at(p)] = enc[p].clone();
+        }
+        let eds = ExtendedDataSquare::new(shares, "Leopard".to_string(), APP)
+            .unwrap_or_else(|e| tool_error(&format!("permuted square rejected by ExtendedDataSquare::new: {e}")));
         Sq::from_eds(eds)
     }
 
@@ -190,12 +223,22 @@ impl Scale {
 #[derive(Default)]
 pub struct SqCache {
     map: HashMap<(usize, Vec<(usize, usize)>), Sq>,
+    perm: HashMap<(usize, u8, usize), Sq>,
     pub built: u64,
 }
 
 impl SqCache {
     pub fn get(&mut self, w: usize, seed: u64, junk: &[(usize, usize)]) -> &mut Sq {
         self.get_opt(w, seed, junk, true)
+    }
+
+    pub fn get_perm(&mut self, w: usize, seed: u64, axis: AxisType, line: usize) -> &mut Sq {
+        let key = (w, axis as u8, line);
+        if !self.perm.contains_key(&key) {
+            self.perm.insert(key, Sq::permuted_line(w, seed, axis, line));
+            self.built += 1;
+        }
+        self.perm.get_mut(&key).unwrap()
     }
 
     pub fn get_opt(&mut self, w: usize, seed: u64, junk: &[(usize, usize)], strict: bool) -> &mut Sq {
